@@ -21,7 +21,7 @@ ASSUMPTIONS = [
     "numeric contents are symbolic integers in [-2^40, 2^40]; strings are drawn from small fixed sets",
     "the socket / HTTP server themselves are not exercised",
 ]
-BOUNDS = {"quick": "54 message classes with contents of <= 3 items (replication request paths of 2 and 12 hops); computation definitions for pair and chain-3 on the 4 graph models; AgentDef with <= 2 routes / hosting costs",
+BOUNDS = {"quick": "54 message classes with contents of <= 3 items (replication request paths of 2 and 12 hops); computation definitions for pair and chain-3 on the 4 graph models (and a pair whose table may hold an infinite cost, on 2 models); AgentDef with <= 2 routes / hosting costs",
           "thorough": "quick + triangle and ternary instances, variable cost tables, paths / offers with 3 entries"}
 OUTSIDE = "arbitrary strings, floats other than integers and the special values, messages of algorithms outside pydcop.algorithms"
 CAP_S = {"quick": 900, "thorough": 3600}
@@ -257,6 +257,10 @@ def jobs(tier):
     for s in structs:
         for g, algo in (("pseudotree", "dpop"), ("factor_graph", "maxsum"), ("constraints_hypergraph", "dsa"), ("ordered_graph", "syncbb")):
             out.append({"name": "compdef-%s-%s" % (g, s), "kind": "compdef", "graph": g, "algo": algo, "spec": spec(s, "min")})
+    # hard constraints: one entry of the pair's table may be infinite
+    for g, algo in (("constraints_hypergraph", "dsa"), ("factor_graph", "maxsum")):
+        out.append({"name": "compdef-%s-pair-hard" % g, "kind": "compdef", "graph": g, "algo": algo, "spec": spec("pair", "min"),
+                    "hard": True})
     out.append({"name": "agentdef-pickle", "kind": "agentdef"})
     return out
 
@@ -279,9 +283,11 @@ def run(eng, p):
             eng.fail("%s: encode/decode raised %s: %s" % (label, type(e).__name__, e), regions=regs,
                      detail=traceback.format_exc(limit=-4))
             return
+        # (the known findings about infinite bounds are about the encoder REFUSING them; a message that gets through must
+        # still arrive unchanged, so the regions are not attached to the two assertions below)
         eng.prove(type(back).__qualname__ == type(msg).__qualname__ and back.type == msg.type,
-                  "%s: decoded object is not a message of the same type" % label, regions=regs)
-        eng.prove(deep_eq(_msg_state(msg), _msg_state(back)), "%s: decoded message differs from the original" % label, regions=regs,
+                  "%s: decoded object is not a message of the same type" % label)
+        eng.prove(deep_eq(_msg_state(msg), _msg_state(back)), "%s: decoded message differs from the original" % label,
                   detail=str((_short(_msg_state(msg)), _short(_msg_state(back)))))
         return
     if p["kind"] == "agentdef":
@@ -315,10 +321,22 @@ def _msg_state(m):
     return {k: norm(v) for k, v in d.items()}
 
 
+def _entries(c):
+    m = getattr(c, "_m", None)
+    if m is None:
+        return []
+    try:
+        return [x for x in m.reshape(-1)] if hasattr(m, "reshape") else []
+    except Exception:
+        return []
+
+
 def run_compdef(eng, p):
     from pydcop.utils.simple_repr import simple_repr, from_repr
     from pydcop.algorithms import AlgorithmDef, ComputationDef
-    inst = Instance(eng, p["spec"])
+    inst = Instance(eng, p["spec"], entry_kinds=["sym", "inf"] if p.get("hard") else None,
+                    kind_filter=(lambda n: n == "c0_11") if p.get("hard") else None)
+    has_inf = any(isinstance(v, float) for c in inst.dcop.constraints.values() for v in _entries(c))
     gm = importlib.import_module("pydcop.computations_graph." + p["graph"])
     cg = gm.build_computation_graph(inst.dcop)
     algo = AlgorithmDef.build_with_default_param(p["algo"], {}, mode="min")
@@ -330,8 +348,9 @@ def run_compdef(eng, p):
     try:
         back = from_repr(wire(eng, simple_repr(cd)))
     except Exception as e:
-        eng.fail("computation definition encode/decode raised %s: %s" % (type(e).__name__, e), regions=regs,
-                 detail=traceback.format_exc(limit=-4))
+        # (the finding about infinite costs is about the encoder REFUSING them: attached to this failure only)
+        eng.fail("computation definition encode/decode raised %s: %s" % (type(e).__name__, e),
+                 regions=regs + region(eng, "C15-infinite-cost-in-constraint", has_inf), detail=traceback.format_exc(limit=-4))
         return
     n2 = back.node
     ok = (n2.name == node.name and n2.type == node.type and back.algo.algo == algo.algo and back.algo.mode == algo.mode
